@@ -592,13 +592,19 @@ def run(rep: vlib.Reporter, tier: str, seed: int) -> None:
     rep.proof(pr3)
     pr4 = vlib.build_props("C05nary")         # n-ary inner-join trees: every plan = the comprehension (order independence)
     rep.proof(pr4)
-    pr.ok = pr.ok and pr2.ok and pr3.ok and pr4.ok
-    pr.failed_files += pr2.failed_files + pr3.failed_files + pr4.failed_files
+    pr5 = vlib.build_props("C05shared")       # several joins sharing a source: every JoinStep merges the converted source of its own link
+    rep.proof(pr5)
+    pr.ok = pr.ok and pr2.ok and pr3.ok and pr4.ok and pr5.ok
+    pr.failed_files += pr2.failed_files + pr3.failed_files + pr4.failed_files + pr5.failed_files
     rep.coverage["trusted_base"] += [
         "Spec/Rel.v (rel_join) is the relational specification and the oracle of record (evaluated by vm_compute)",
         "Model/RoutingJ.v is a hand-written model of the run-time side of joins (registry lookups with cfw_merge_relation / "
         "find_leftmost, the JoinStep branches of prepare_execute_step / prepare_tfs_and_joinstep, JoinStep.execute = rel_join on "
         "the left object); tied per run: computed footprints = observed footprints, computed consumer table = received rows",
+        "Model/RoutingJS.v: the premises own_okb (every JoinStep has its own transform step ...) and the plan shape of k joins on one "
+        "right source are hand-written; own_okb is evaluated on the steps of every run of the shared_source family (begin order, "
+        "set-iteration orders of the step objects that ran); tkey_eqb mirrors TransformFrameworkStep.__eq__ (tied by C04's planner "
+        "correspondence, Model/PlannerL.tfs_key_eqb, not here)",
         "the planner (run_link, resolve_trekked_links, invert_link, fill_tfs_by_joinstep) is NOT modelled for requests with Links: "
         "plans are exported; the merge kernels (JoinStep._merge_data) are C12's subject",
         "generated consumer groups record the rows handed to their calculation; known-defect domains are Python predicates on "
@@ -793,7 +799,12 @@ def run(rep: vlib.Reporter, tier: str, seed: int) -> None:
             rep.finding(f"append-union:{json.dumps(spec_a, sort_keys=True)}", what + (f" (request in domain {dom}, but this is not the recorded failure)" if dom else ""), replay)
             found = True
     dist["append_union"] = {"requests": len(afam), "status": astat, "compared": len(aterms), "disagreements": len(abad), "in_recorded_domains": akf}
-    rep.count(len(recs) + len(drecs) + len(arecs))
+    # family shared_source (harness/c05_shared.py): k = 2..3 independent joins sharing ONE source, one consumer per join, every
+    # consumer judged against rel_join of its own Link; premises of Props/C05shared.v evaluated on the steps of every run
+    from harness import c05_shared
+    n_sh, found_sh, dist["shared_source"] = c05_shared.run_family(rep, rng, big)
+    found = found or found_sh
+    rep.count(len(recs) + len(drecs) + len(arecs) + n_sh)
     dist["dimensions"] = counters
     dist["equal_to_spec_by_dimension"] = correct_by
     rep.add("distribution", dist)
@@ -821,6 +832,9 @@ def replay(path: str) -> int:
     r = json.load(open(path))["replay"]
     install()
     spec = r["spec"]
+    if r.get("kind") == "shared":
+        from harness import c05_shared
+        return c05_shared.replay(r)
     if r.get("kind") == "append":
         rec = one(spec)
         print(json.dumps({k: rec.get(k) for k in ("status", "exc", "rows")}, indent=1, default=str))
